@@ -97,8 +97,13 @@ def run(tier, seed):
     sh += list(10 ** rng.uniform(-12, math.log10(0.5), tier_n(tier, 1000, 10000)))
     sh += list(1 - 10 ** rng.uniform(-12, math.log10(0.5), tier_n(tier, 1000, 10000)))
     sh += [0.5, 0.25, 0.75]
+    # dense runs in the far tails: the step of the true quantile (~3e-5/z) is then comparable with what a
+    # cancellation in an intermediate result (1 - D(z) for small alpha) does to the value
+    for base in (1.2e-12, 1e-11, 1e-10, 1e-9, 1e-8):
+        sh += [base * (1 + 3e-5) ** k for k in range(tier_n(tier, 60, 400))]
     sh = sorted(set(float(s) for s in sh if 0 < s < 1))
     sdofs = [1, 2, 3, 4, 5, 6, 10, 17, 30, 31, 100, 101, 1000] + [int(x) for x in rng.integers(1, 5000, tier_n(tier, 3, 30))]
+    sdofs = sorted(set(sdofs))   # a repeated dof would concatenate two alpha sweeps into one series
     lines, tags = [], []
     for a in sh:
         lines.append("N %.17g" % a); tags.append(("N", a, 0))
@@ -133,7 +138,9 @@ def run(tier, seed):
             bad = {}
             for (a1, v1), (a2, v2) in zip(pts, pts[1:]):
                 if not (v2 < v1):
-                    if v2 == v1 and abs(a2 - a1) <= 4e-16 * max(a1, a2):
+                    # a rise within the rounding noise of the result itself (a few ulp of a quantity of order
+                    # max(1,|v|): Normal(a) near a = 0.5 is a difference of numbers of order 1) is not a defect
+                    if v2 - v1 <= 1e-15 * max(1.0, abs(v1)) and abs(a2 - a1) <= 1e-3 * min(a1, 1 - a2, a2, 1 - a1):
                         continue
                     zone = "far-upper-tail(alpha<1e-6)" if a2 < 1e-6 else (
                         "far-lower-tail(alpha>1-1e-6)" if a1 > 1 - 1e-6 else "core")
